@@ -165,9 +165,10 @@ TIE = {
  "C06": "SMCSampler.determine_beta (fixed rule, bisection loop, fallback step, adaptive minimum step, clamps), current_target_efficiency, the loop's exit test and the min_step initialisation of SMCSampler.sample, and the LOOP of SMCSampler.sample statement by statement (the body of `while True:`, the nested maybe_checkpoint, the `if run_smc_loop:` / break skeleton and the statements after the loop up to the forced checkpoint) over the callee interface Gen.LoopOps (Props/C06LoopTie: the loop is left only at temperature 1 or at the step cap, one pass per unit of the counter, a step cap bounds the number of passes and forces termination, for every callee)",
  "C07": "SMCSampler.determine_beta / current_target_efficiency and the efficiency curve effective_sample_size(log_weights(b))/N",
  "C08": "SMCSamples.log_evidence_ratio, log_evidence_ratio_variance the two statements that sum the recorded series after the loop, and the LOOP of SMCSampler.sample statement by statement (the body of `while True:`, the nested maybe_checkpoint, the `if run_smc_loop:` / break skeleton and the statements after the loop up to the forced checkpoint) over the callee interface Gen.LoopOps (Props/C08LoopTie: the recorded ratio is that of the population before the pass resamples it at the temperature determine_beta returned, is independent of that pass's resample/mutate, of the enlargement and of the checkpoint options, for every callee)",
- "C09": "SMCSamples.log_weights and the statements of SMCSamples.resample that compute the probability vector handed to rng.choice",
+ "C09": "SMCSamples.log_weights, the statements of SMCSamples.resample that compute the probability vector handed to rng.choice, and (seventh vocabulary, rows2lean.py) the `return self.__class__(x=self.x[idx], ...)` of resample (Props/C09RowsTie: the translated population = C09.resampleRows up to an evidence attached to the old object; src_rows_copied_intact - all four columns are gathered with the SAME index list; src_resampled_beta; src_resampled_size)",
  "C11": "the statements of SMCSampler.sample that decide whether a resumed call re-enters the loop, and the LOOP of SMCSampler.sample statement by statement (the body of `while True:`, the nested maybe_checkpoint, the `if run_smc_loop:` / break skeleton and the statements after the loop up to the forced checkpoint) over the callee interface Gen.LoopOps (Props/C11LoopTie: the loop and the statements after it read nothing but the five values a checkpoint payload is built from, so a call restarted from them records the same history, evidence and new payloads, for every callee)",
  "C12": "the cadence rule inside maybe_checkpoint of SMCSampler.sample and utils.dump_pickle_to_hdf (create / resize / overwrite of the checkpoint dataset, in a dataset vocabulary), and the LOOP of SMCSampler.sample statement by statement (the body of `while True:`, the nested maybe_checkpoint, the `if run_smc_loop:` / break skeleton and the statements after the loop up to the forced checkpoint) over the callee interface Gen.LoopOps (Props/C12LoopTie: src_cadence - the payloads handed to the callback are built at iterations e, 2e, ... and once at the end, the last one from the returned population, evidence, counter, temperature, minimum step and history)",
+ "C16": "which field of a NEW sample set is built from which field of the old one, indexed how (seventh vocabulary, harness/translate/rows2lean.py over Model/Rows + Gen/RowOps): BaseSamples / Samples / SMCSamples.__getitem__ and SMCSamples.to_standard_samples (Props/C16Tie: each translated __getitem__ = Model.select for its class; src_selection_aligned, src_evidence_carried, src_weights_selected (ESS recomputed from the SELECTED log-weights), src_to_standard)",
  "C17": "the statements by which the samplers EVALUATE the user's functions (sixth vocabulary, harness/translate/eval2lean.py over Gen/EvalOps): the counting wrapper Sampler.log_likelihood, the construct-attach-prior-then-likelihood statements of five call sites (importance sampler, MCMC and SMC kernel targets, MiniPCNSMC.mutate, EmceeSMC.mutate) and the whole rejection loop of MCMCSampler.draw_initial_samples (Props/C17Tie: every site = Model.evalLP / reevaluate / targetEval; src_prior_before_likelihood_same_points; tie_draw_initial_samples: for n >= 1 the translated initial draw consumes the same batches, makes the same calls in the same order, counts the same evaluations and returns the same population as Model.drawInitial, by induction over the batches)",
  "C10": "the statements by which the samplers EVALUATE the user's functions (sixth vocabulary, harness/translate/eval2lean.py over Gen/EvalOps): the counting wrapper Sampler.log_likelihood, the construct-attach-prior-then-likelihood statements of five call sites (importance sampler, MCMC and SMC kernel targets, MiniPCNSMC.mutate, EmceeSMC.mutate) and the whole rejection loop of MCMCSampler.draw_initial_samples (Props/C10Tie: src_sites_coherent - the set handed on by every translated site stores the user's prior / likelihood and the proposal at its own rows; src_initial_population - exactly n rows, finite priors only, each row with the log q drawn together with it)",
  "C14": "the checkpoint-FILE blocks of Aspire.fit and Aspire.sample_posterior (fifth vocabulary, harness/translate/file2lean.py over Gen/FileOps: the alias of the checkpoint defaults, which file is opened, deletion and re-creation of the aspire_config and flow groups, the saved_* flags, the path and cadence handed to the sampler) (Props/C14Tie: closed forms tie_fit_file_block / tie_sample_pre_block / tie_sample_post_block; src_post_after_pre_is_identity - within one call nothing is written after sampling; src_sampler_gets_the_same_file; rel_fit and rel_sample: the translated blocks, composed with the sampler's checkpoint writes, do to the source-level session exactly what Model.stepFit / Model.stepSample do to the model's)",
